@@ -309,24 +309,28 @@ pub fn replay(check: &dyn Check, path: &str) -> i32 {
         j.get("seed").and_then(|s| s.as_u64()).unwrap_or(0));
     if want_class == NONDET_CLASS {
         let dir = std::env::var("VERIF_DIR").unwrap_or_else(|_| "/verif".to_string());
-        let a = execute_isolated(check, &dir, &scenario);
-        let b = execute_isolated(check, &dir, &scenario);
-        return match (a, b) {
-            (Ok(a), Ok(b)) => {
-                if a.hash != b.hash {
-                    println!("REPRODUCED class={} two fresh processes gave outcome hashes {} and {}", NONDET_CLASS, hash_hex(a.hash), hash_hex(b.hash));
-                    println!("VIOLATION property={} replay={}", check.id(), path);
-                    1
-                } else {
-                    println!("NOT-REPRODUCED two fresh processes agree on this tree");
-                    0
+        // the source of the nondeterminism is outside every seam (e.g. OS entropy), so the replay is
+        // a bounded search: up to 8 fresh processes, reproduced as soon as two outcomes differ
+        let mut first: Option<u64> = None;
+        for _ in 0..8 {
+            match execute_isolated(check, &dir, &scenario) {
+                Ok(o) => match first {
+                    None => first = Some(o.hash),
+                    Some(h) if h != o.hash => {
+                        println!("REPRODUCED class={} fresh processes gave outcome hashes {} and {}", NONDET_CLASS, hash_hex(h), hash_hex(o.hash));
+                        println!("VIOLATION property={} replay={}", check.id(), path);
+                        return 1;
+                    }
+                    _ => {}
+                },
+                Err(e) => {
+                    eprintln!("HARNESS-ERROR {}", e);
+                    return 2;
                 }
             }
-            (Err(e), _) | (_, Err(e)) => {
-                eprintln!("HARNESS-ERROR {}", e);
-                2
-            }
-        };
+        }
+        println!("NOT-REPRODUCED 8 fresh processes agree on this tree");
+        return 0;
     }
     match check.execute(&scenario) {
         Err(e) => {
@@ -438,7 +442,7 @@ pub fn run_check(check: &dyn Check, opts: &Options) -> i32 {
 
     let next = AtomicU64::new(0);
     let results: Mutex<BTreeMap<u64, Slot>> = Mutex::new(BTreeMap::new());
-    let workers = check.workers().max(1);
+    let workers = std::env::var("VERIF_WORKERS").ok().and_then(|w| w.parse::<usize>().ok()).unwrap_or_else(|| check.workers()).max(1);
     std::thread::scope(|s| {
         for _ in 0..workers {
             s.spawn(|| loop {
@@ -628,6 +632,14 @@ pub fn run_check(check: &dyn Check, opts: &Options) -> i32 {
                 .output();
             match outp {
                 Ok(o) if o.status.code() == Some(1) => {}
+                Ok(o) if nondet && o.status.code() == Some(0) => {
+                    // observed once in this run, but 8 further fresh processes agreed: too rare to
+                    // replay, so it is not reported (the harness itself is deterministic, see
+                    // selftest/determinism.sh; the randomness is the code under test's)
+                    println!("UNCONFIRMED property={} class={} run={} {}", id, viol.class, run, viol.detail);
+                    let _ = std::fs::remove_file(&fname);
+                    continue;
+                }
                 Ok(o) => {
                     eprintln!(
                         "HARNESS-ERROR replay of {} in a fresh process did not reproduce (exit {:?}): harness not deterministic\n{}",
